@@ -79,6 +79,13 @@ SITES = {
     "some": ("", "o = Some(Pos({X}))\nmatch o:\n    case Some(p):\n        println({SHOWP})\n    case None:\n        pass"),
     "helper_fn": ("def helper(x: {T}) -> {T}:\n    p = Pos(x)\n    return {SHOWP}\n", "println(helper({X}))"),
     "second_construction": ("", "q = Pos({OK})\np = Pos({X})\nprintln({SHOWP})"),
+    # the argument is not a literal: a variable, an arithmetic expression, a call result, the payload of *another* newtype
+    # over the same underlying type (no hook of its own), a field of a model
+    "arg_variable": ("", "raw = {X}\np = Pos(raw)\nprintln({SHOWP})"),
+    "arg_call_result": ("def give(v: {T}) -> {T}:\n    return v\n", "p = Pos(give({X}))\nprintln({SHOWP})"),
+    "arg_other_newtype_payload": ("type Other = newtype {T}\n", "o = Other({X})\np = Pos(o.0)\nprintln({SHOWP})"),
+    "arg_other_newtype_payload_param": ("type Other = newtype {T}\n\n\ndef conv(o: Other) -> Pos:\n    return Pos(o.0)\n", "p = conv(Other({X}))\nprintln({SHOWP})"),
+    "arg_model_field": ("model Carrier:\n    raw: {T}\n", "c = Carrier(raw={X})\np = Pos(c.raw)\nprintln({SHOWP})"),
 }
 # the exempt site: inside Pos's own methods construction is raw (used by the hook itself); nothing to assert beyond "builds"
 
@@ -234,7 +241,7 @@ def run(tier):
         "distinct_nontrivial": len(sig_ok),
         "rule": "underlying type (int, str, float) x hook kind (none, from_underlying, single from_<type>, hook + other method, two from_* = no hook selected, and the single from_<type> next to each kind of sibling that does not have the hook's shape: two-parameter from_*, from_* over another type, from_* returning the bare type, instance from_*, static non-from method, parameterless from_*; from_underlying next to another well-shaped from_*) x 19 construction sites (each also with the newtype declared after its uses) "
         "sites + 3 sites where the newtype is imported from another module (let, annotated/mut let, argument, return, model field, list element, nested call, another type's method, trait impl / default method, if / for / match blocks, "
-        "closure, comprehension, Some(..), helper function, second construction) x argument class (accepted, rejected, boundary); quick restricts the product as stated in the code; "
+        "closure, comprehension, Some(..), helper function, second construction; argument given as a variable, a call result, the payload of another newtype - local or parameter -, a model field) x argument class (accepted, rejected, boundary); quick restricts the product as stated in the code; "
         "plus 8 mixing positions for two newtypes over int (with accepted twins); non-trivial = distinct signatures that built, ran and satisfied the oracle",
         "samples": [{"sig": list(c[0]), "files": c[1]} for c in common.pick_samples(cases)],
         "exhaustive": True,
